@@ -92,6 +92,7 @@ class Replayer:
     def __init__(self, types, dt100, default_v, spawn=None, max_ids=10 ** 9):
         self.types, self.dt100, self.default_v = sorted(types), dt100, default_v
         self.m = A.build(self.types, dt100, spawn=spawn, default_v=default_v)
+        self.alias_delete = True
         self.m._max_ids = max_ids
         self.pending = {}
 
@@ -104,10 +105,15 @@ class Replayer:
                 m.create_agent(h["ty"], A.prop_v(h["v"]))
             elif op == "Delete":
                 ids = list(h["ids"])
-                if len(ids) == 1:
+                # "delete all agents of a type" is written the way users write it: with the list agent_ids() returned
+                whole = [ty for ty in self.types if sorted(m.agent_ids(ty)) == sorted(ids)] if len(ids) > 1 or self.alias_delete else []
+                if whole and self.alias_delete:
+                    m.delete_agents(m.agent_ids(whole[0]))
+                elif len(ids) == 1:
                     m.delete_agent(ids[0])
                 else:
                     m.delete_agents(ids)
+                self.alias_delete = not self.alias_delete
             elif op == "Configure":
                 m.configure_agents([{"name": c[0], "count": c[1], "properties": A.prop_v(c[2])} for c in h["cfg"]])
             elif op == "Reset":
